@@ -161,14 +161,30 @@ static void run_execution(vh::Rng &rng, uint64_t seed, int xno) {
         LogSetMaxLength(mx);
         std::string cfg = J("config") + kv("max", (long long)mx) + ",\"sinks\":[";
         for (int s = 1; s <= 3; ++s) {
+            // the calls are issued in a random order (module thresholds before or after the default one, the default also through
+            // setLevel("", l), thresholds overwritten): the configuration that counts is the final one
             int def = (int)rng.range(-1, 8);
-            sinks[s]->setLevel(def);
+            int ml[3]; bool has[3];
+            for (int m = 0; m < 3; ++m) { has[m] = rng.chance(35); ml[m] = (int)rng.range(-1, 8); }
+            std::vector<int> order = {0, 1, 2, 3, 3};           // 3 = the default threshold (issued twice)
+            for (size_t i = order.size(); i > 1; --i) std::swap(order[i - 1], order[rng.below(i)]);
+            bool def_seen = false;
+            for (int what : order) {
+                if (what == 3) {
+                    int v = def_seen ? def : (rng.chance(50) ? (int)rng.range(-1, 8) : def);   // first time maybe a value that is overwritten later
+                    if (order.back() == 3 && !def_seen) v = v;  // (no-op; the last default call below sets the final value)
+                    if (rng.chance(50)) sinks[s]->setLevel(v); else sinks[s]->setLevel("", v);
+                    def_seen = true;
+                } else if (has[what]) {
+                    if (rng.chance(30)) sinks[s]->setLevel(MODS[what], (int)rng.range(-1, 8));   // overwritten below
+                    sinks[s]->setLevel(MODS[what], ml[what]);
+                } else sinks[s]->unsetLevel(MODS[what]);
+            }
+            if (rng.chance(50)) sinks[s]->setLevel(def); else sinks[s]->setLevel("", def);          // final default threshold
+            if (rng.chance(50)) for (int m = 0; m < 3; ++m) if (has[m]) sinks[s]->setLevel(MODS[m], ml[m]);   // sometimes modules last
             cfg += std::string(s > 1 ? "," : "") + "{\"def\":" + std::to_string(def) + ",\"mods\":[";
             bool first = true;
-            for (int m = 0; m < 3; ++m) {
-                if (rng.chance(35)) { int l = (int)rng.range(-1, 8); sinks[s]->setLevel(MODS[m], l); cfg += std::string(first ? "" : ",") + "{\"m\":\"" + MODS[m] + "\",\"l\":" + std::to_string(l) + "}"; first = false; }
-                else sinks[s]->unsetLevel(MODS[m]);
-            }
+            for (int m = 0; m < 3; ++m) if (has[m]) { cfg += std::string(first ? "" : ",") + "{\"m\":\"" + MODS[m] + "\",\"l\":" + std::to_string(ml[m]) + "}"; first = false; }
             cfg += "]}";
         }
         emit(cfg + "]}");
